@@ -74,7 +74,8 @@ func runJumps(t *testing.T, rt *rapid.T) {
 	defer func() { cancel(); <-done; synctest.Wait() }()
 
 	pending := map[core.Duty]bool{}
-	expected := map[core.Duty]int{}
+	expected := map[core.Duty]int{}    // reports owed (lower bound once due)
+	expectedMax := map[core.Duty]int{} // upper bound: a registration exactly at the deadline instant of a duty that is being reported at that very moment may or may not cause one more report
 	var trace []string
 	multiJump := false
 	check := func() {
@@ -99,13 +100,13 @@ func runJumps(t *testing.T, rt *rapid.T) {
 			prev, prevDuty = off, r.duty
 		}
 		for d, n := range got {
-			if n > expected[d] {
-				rt.Fatalf("duty %v reported %d times, expected at most %d (trace %v)", d, n, expected[d], trace)
+			if n > expectedMax[d] {
+				rt.Fatalf("duty %v reported %d times, expected at most %d (trace %v)", d, n, expectedMax[d], trace)
 			}
 		}
 		for d := range pending {
 			if !w.base.Add(w.deadline[d]).After(now) {
-				if got[d] != expected[d] {
+				if got[d] < expected[d] {
 					rt.Fatalf("duty %v due at +%v, now +%v: reported %d times, want %d (trace %v)", d, w.deadline[d], now.Sub(w.base), got[d], expected[d], trace)
 				}
 				delete(pending, d)
@@ -140,6 +141,12 @@ func runJumps(t *testing.T, rt *rapid.T) {
 			}
 			clock.Advance(target - now)
 			trace = append(trace, fmt.Sprintf("jump->+%v", target))
+			if rapid.IntRange(0, 2).Draw(rt, "addRacesTimers") == 0 {
+				// the next registration reaches the deadliner while the timers this jump made due are still
+				// unhandled (its select may take either first)
+				trace = append(trace, "nowait")
+				continue
+			}
 		} else {
 			d := duties[rapid.IntRange(0, len(duties)-1).Draw(rt, "duty")]
 			now := clock.Now()
@@ -158,12 +165,16 @@ func runJumps(t *testing.T, rt *rapid.T) {
 				if !pending[d] {
 					pending[d] = true
 					expected[d]++
+					expectedMax[d]++
 				}
 				trace = append(trace, fmt.Sprintf("add(+%v)", off))
 			default:
-				if status == core.DeadlineScheduled && !pending[d] {
-					pending[d] = true
-					expected[d]++
+				if status == core.DeadlineScheduled {
+					if !pending[d] {
+						pending[d] = true
+						expected[d]++
+					}
+					expectedMax[d]++
 				}
 				trace = append(trace, "addAt")
 			}
@@ -172,6 +183,8 @@ func runJumps(t *testing.T, rt *rapid.T) {
 		check()
 	}
 	// run out the clock in jumps of at most 8 due duties
+	synctest.Wait()
+	check()
 	for len(pending) > 0 {
 		now := clock.Now().Sub(w.base)
 		target := time.Duration(lattice+1) * unit
